@@ -134,19 +134,19 @@ Proof.
     + right. exists v. split; [right; auto|auto].
 Qed.
 
-Theorem variant_origin_lemma : forall objs vs n, In n (variant objs vs) ->
+Theorem variant_origin_raw : forall objs vs n, In n (variant_raw objs vs) ->
   exists v, In v (with_off vs 0 0) /\ origin objs v n.
 Proof.
-  intros objs vs n Hn. unfold variant in Hn.
+  intros objs vs n Hn. unfold variant_raw in Hn.
   assert (H : False \/ exists v, In v (with_off vs 0 0) /\ origin objs v n).
   { apply (variant_go_origin objs vs 0 0 [] (fun _ => False)); auto. }
   destruct H as [[]|H]; auto.
 Qed.
 
 (* no repeat/ending brackets, jump instructions (or segments, systems, pages) remain *)
-Theorem variant_no_nav_lemma : forall objs vs n, In n (variant objs vs) -> is_skip (n_cls n) = false.
+Theorem variant_no_nav_raw : forall objs vs n, In n (variant_raw objs vs) -> is_skip (n_cls n) = false.
 Proof.
-  intros objs vs n Hn. destruct (variant_origin_lemma _ _ _ Hn) as ([[[k s] e] off] & _ & o & _ & _ & Hc & _ & _ & _ & _ & Hs & _).
+  intros objs vs n Hn. destruct (variant_origin_raw _ _ _ Hn) as ([[[k s] e] off] & _ & o & _ & _ & Hc & _ & _ & _ & _ & Hs & _).
   rewrite Hc. exact Hs.
 Qed.
 
@@ -166,12 +166,12 @@ Proof.
   - specialize (IH _ _ _ Hr Hv). destruct v as [[[k' s'] e'] o']. lia.
 Qed.
 
-Theorem variant_positions_lemma : forall objs vs n,
-  Forall (fun v => fst v <= snd v) vs -> In n (variant objs vs) ->
+Theorem variant_positions_raw : forall objs vs n,
+  Forall (fun v => fst v <= snd v) vs -> In n (variant_raw objs vs) ->
   0 <= n_start n <= total_len vs.
 Proof.
   intros objs vs n Hf Hn.
-  destruct (variant_origin_lemma _ _ _ Hn) as ([[[k s] e] off] & Hv & o & _ & _ & _ & _ & Hst & _ & _ & _ & Hk).
+  destruct (variant_origin_raw _ _ _ Hn) as ([[[k s] e] off] & Hv & o & _ & _ & _ & _ & Hst & _ & _ & _ & Hk).
   pose proof (with_off_bounds _ _ _ _ Hf Hv) as Hb. simpl in Hb.
   destruct Hk as [[_ Hi]|[_ [_ He]]].
   - unfold in_seg in Hi. apply andb_true_iff in Hi as [H1 H2]. lia.
@@ -191,12 +191,12 @@ Proof.
   specialize (IH _ _ _ Hv). destruct v as [[[? ?] ?] ?]. right; auto.
 Qed.
 
-Theorem variant_ends_lemma : forall objs vs n x,
+Theorem variant_ends_raw : forall objs vs n x,
   Forall (fun v => fst v <= snd v) vs -> contained objs vs ->
-  In n (variant objs vs) -> n_end n = Some x -> n_start n <= total_len vs /\ x <= total_len vs \/ n_extra n = true.
+  In n (variant_raw objs vs) -> n_end n = Some x -> n_start n <= total_len vs /\ x <= total_len vs \/ n_extra n = true.
 Proof.
   intros objs vs n x Hf Hc Hn Hx.
-  destruct (variant_origin_lemma _ _ _ Hn) as ([[[k s] e] off] & Hv & o & Ho & _ & _ & _ & Hst & Hen & _ & Hs & Hk).
+  destruct (variant_origin_raw _ _ _ Hn) as ([[[k s] e] off] & Hv & o & Ho & _ & _ & _ & Hst & Hen & _ & Hs & Hk).
   pose proof (with_off_bounds _ _ _ _ Hf Hv) as Hb. simpl in Hb.
   pose proof (with_off_In _ _ _ _ Hv) as Hin. simpl in Hin.
   destruct Hk as [[_ Hi]|[He _]]; [left|right; auto].
@@ -269,9 +269,9 @@ Proof.
     rewrite notes_copy_fold. unfold expected_notes. simpl. rewrite <- app_assoc. reflexivity.
 Qed.
 
-Theorem variant_notes_lemma : forall objs vs,
-  notes_of (variant objs vs) = expected_notes objs vs 0 0.
-Proof. intros. unfold variant. rewrite notes_variant_go. reflexivity. Qed.
+Theorem variant_notes_raw : forall objs vs,
+  notes_of (variant_raw objs vs) = expected_notes objs vs 0 0.
+Proof. intros. unfold variant_raw. rewrite notes_variant_go. reflexivity. Qed.
 
 (* ------------------------------------------------------------------ *)
 (* references stay inside the copy *)
@@ -367,20 +367,20 @@ Proof.
   apply IH. apply visit_refs_inv; auto.
 Qed.
 
-Theorem variant_refs_closed_lemma : forall objs vs n,
-  In n (variant objs vs) -> n_extra n = false -> closed_in (variant objs vs) n.
+Theorem variant_refs_closed_raw : forall objs vs n,
+  In n (variant_raw objs vs) -> n_extra n = false -> closed_in (variant_raw objs vs) n.
 Proof.
-  intros objs vs n Hn He. unfold variant in *.
+  intros objs vs n Hn He. unfold variant_raw in *.
   destruct (variant_go_refs objs vs 0 0 []) as (k' & H); [intros m []|].
   destruct (H n Hn) as [_ Hc]. auto.
 Qed.
 
 (* the extra copies are fermatas only (they carry no references in partitura) *)
-Theorem variant_extras_lemma : forall objs vs n,
-  In n (variant objs vs) -> n_extra n = true -> n_cls n = cls_fermata.
+Theorem variant_extras_raw : forall objs vs n,
+  In n (variant_raw objs vs) -> n_extra n = true -> n_cls n = cls_fermata.
 Proof.
   intros objs vs n Hn He.
-  destruct (variant_origin_lemma _ _ _ Hn) as ([[[k s] e] off] & _ & o & _ & _ & Hc & _ & _ & _ & _ & _ & Hk).
+  destruct (variant_origin_raw _ _ _ Hn) as ([[[k s] e] off] & _ & o & _ & _ & Hc & _ & _ & _ & _ & _ & Hk).
   destruct Hk as [[H _]|[_ [H _]]]; congruence.
 Qed.
 
@@ -430,92 +430,16 @@ Proof.
     destruct v as [[[kv sv] ev] ov]. exact IH.
 Qed.
 
-(* length: with well-formed visits, nothing sticking out, an object starting the first visited
-   segment and one ending the last, the variant spans exactly [0, sum of the segment lengths] *)
-Theorem variant_length_lemma : forall objs s0 e0 mid sl el o0 o1,
-  let vs := (s0, e0) :: mid ++ [(sl, el)] in
-  Forall (fun v => fst v <= snd v) vs -> contained objs vs ->
-  In o0 objs -> is_skip (o_cls o0) = false -> is_sigcls (o_cls o0) = false -> o_start o0 = s0 -> s0 < e0 ->
-  In o1 objs -> is_skip (o_cls o1) = false -> is_sigcls (o_cls o1) = false -> in_seg sl el o1 = true -> o_end o1 = Some el ->
-  (exists n, In n (variant objs vs) /\ n_start n = 0) /\
-  (exists n, In n (variant objs vs) /\ n_end n = Some (total_len vs)) /\
-  (forall n, In n (variant objs vs) -> 0 <= n_start n <= total_len vs) /\
-  (forall n x, In n (variant objs vs) -> n_extra n = false -> n_end n = Some x -> x <= total_len vs).
-Proof.
-  intros objs s0 e0 mid sl el o0 o1 vs Hf Hc Ho0 Hs0 Hg0 Hst0 Hlt Ho1 Hs1 Hg1 Hi1 He1.
-  split; [|split; [|split]].
-  - assert (Hi0 : in_seg s0 e0 o0 = true) by (unfold in_seg; rewrite Hst0; lia).
-    pose proof (variant_go_present objs o0 vs 0 0 [] (0, s0, e0, 0) Ho0 Hs0 Hg0) as H.
-    simpl in H. destruct H as (n & Hn & _ & _ & _ & _ & Hs & _); auto.
-    exists n. split; [exact Hn|]. rewrite Hs, Hst0. lia.
-  - (* the last visit *)
-    assert (Hlast : forall (l : list (Z * Z)) k off, In (k + Z.of_nat (length l), sl, el, off + total_len l)
-                                       (with_off (l ++ [(sl, el)]) k off)).
-    { induction l as [|[a b] l IH]; intros k off; simpl.
-      - left. unfold total_len. simpl. repeat (f_equal; try lia).
-      - right. specialize (IH (k + 1) (off + (b - a))).
-        replace (k + Z.pos (Pos.of_succ_nat (length l))) with (k + 1 + Z.of_nat (length l)) by lia.
-        replace (off + (b - a + total_len l)) with (off + (b - a) + total_len l) by lia. exact IH. }
-    specialize (Hlast ((s0, e0) :: mid) 0 0).
-    pose proof (variant_go_present objs o1 vs 0 0 [] _ Ho1 Hs1 Hg1 Hlast Hi1) as H. simpl in H.
-    destruct H as (n & Hn & _ & _ & _ & _ & _ & He).
-    exists n. split; [exact Hn|]. rewrite He, He1. simpl. f_equal.
-    unfold vs. change ((s0, e0) :: mid ++ [(sl, el)]) with (((s0, e0) :: mid) ++ [(sl, el)]).
-    rewrite total_len_app. simpl. lia.
-  - intros n Hn. apply variant_positions_lemma with (objs := objs); auto.
-  - intros n x Hn Hex Hx.
-    destruct (variant_ends_lemma objs vs n x Hf Hc Hn Hx) as [[_ H]|H]; [auto|congruence].
-Qed.
-
 (* a part without repeat structure: one segment, one path, the variant is the shifted copy of
    the whole: the notes are exactly the original's notes moved by -first *)
-Theorem identity_notes_lemma : forall objs first last,
-  notes_of (variant objs [(first, last)]) =
+Theorem identity_notes_raw : forall objs first last,
+  notes_of (variant_raw objs [(first, last)]) =
   map (note_copy (0 - first)) (filter (fun ob => in_seg first last ob && is_notecls (o_cls ob)) objs).
 Proof.
-  intros. rewrite variant_notes_lemma. unfold expected_notes. simpl. rewrite app_nil_r. reflexivity.
+  intros. rewrite variant_notes_raw. unfold expected_notes. simpl. rewrite app_nil_r. reflexivity.
 Qed.
 
 (* id suffixes: the copies of one note get 1, 2, 3 ... in the order of the visits that contain it *)
 Lemma id_suffix_pos all n : is_pitched (n_cls n) = true -> 1 <= id_suffix all n.
 Proof. intros H. unfold id_suffix. rewrite H. lia. Qed.
 
-(* ------------------------------------------------------------------ *)
-(* the hypotheses of variant_length_lemma are satisfiable: two measures [0,4) [4,8) with one note
-   each, a repeat bracket over the first and a tie across the bar line; path A A B *)
-Definition ex_objs : list obj :=
-  [ mkObj 0 3 0 (Some 4) 0 (-2, 0, 0) [];                 (* measure 1 *)
-    mkObj 1 cls_note 0 (Some 4) 0 (600, 1, 1) [(0, []); (1, [2])];   (* note tied to the next *)
-    mkObj 9 10 0 (Some 4) 0 (-2, 0, 0) [];                (* Repeat *)
-    mkObj 3 3 4 (Some 8) 0 (-2, 0, 0) [];                 (* measure 2 *)
-    mkObj 2 cls_note 4 (Some 8) 0 (620, 1, 1) [(0, [1]); (1, [])] ].
-Definition ex_vs : list (Z * Z) := [(0, 4); (0, 4); (4, 8)].
-
-Example ex_hyps :
-  Forall (fun v => fst v <= snd v) ex_vs /\ contained ex_objs ex_vs.
-Proof.
-  split; [repeat constructor; simpl; lia|].
-  intros o s e x Ho Hv Hi Hs He.
-  simpl in Ho, Hv.
-  destruct Ho as [<-|[<-|[<-|[<-|[<-|[]]]]]]; destruct Hv as [Hv|[Hv|[Hv|[]]]]; injection Hv as <- <-;
-    simpl in *; try discriminate; injection He as <-; lia.
-Qed.
-
-Example ex_variant :
-  map (fun n => (n_id n, n_visit n, n_start n, n_end n, n_refs n)) (variant ex_objs ex_vs) =
-  [ (0, 0, 0, Some 4, []); (1, 0, 0, Some 4, [(0, []); (1, [])]);
-    (0, 1, 4, Some 8, []); (1, 1, 4, Some 8, [(0, []); (1, [])]);
-    (3, 2, 8, Some 12, []); (2, 2, 8, Some 12, [(0, []); (1, [])]) ].
-Proof. vm_compute. reflexivity. Qed.
-
-(* C09-K1 in the model: a slur from the first measure into the second, path = first segment only
-   (Fine after measure 1): the slur's copy ends at 8 > 4 = sum of the lengths *)
-Lemma variant_length_refuted_lemma :
-  exists objs vs n x, In n (variant objs vs) /\ n_extra n = false /\ n_end n = Some x /\ total_len vs < x.
-Proof.
-  exists [mkObj 0 3 0 (Some 4) 0 (-2, 0, 0) []; mkObj 5 7 0 (Some 8) 0 (-2, 0, 0) [(8, []); (9, [])]].
-  exists [(0, 4)].
-  eexists (mkN 5 0 false 7 0 (Some 8) 0 (-2, 0, 0) [(8, []); (9, [])]), 8.
-  split; [vm_compute; right; left; reflexivity|].
-  split; [reflexivity|]. split; [reflexivity|]. vm_compute. reflexivity.
-Qed.
